@@ -68,6 +68,9 @@ func runC14(c *Ctx) {
 					}
 				}
 			}
+			if k, ok := defaultOfOr(w, iv); ok {
+				defaults[fmt.Sprint("timer", id)] = float64(k) / 1e9
+			}
 			if bo, isBO := iv.(*ssa.BinOp); isBO && bo.Op == token.QUO {
 				if k, isK := constInt(bo.Y); isK {
 					defaults[fmt.Sprint("timer", id, "div")] = float64(k)
@@ -80,6 +83,8 @@ func runC14(c *Ctx) {
 			if st, ok := in.(*ssa.Store); ok {
 				if fa, ok := st.Addr.(*ssa.FieldAddr); ok && nm(fieldOf(fa)) == "bindingRefreshInterval" {
 					if k, isK := constInt(st.Val); isK {
+						bri = float64(k) / 1e9
+					} else if k, ok := defaultOfOr(w, st.Val); ok {
 						bri = float64(k) / 1e9
 					}
 				}
@@ -631,7 +636,7 @@ func runC14(c *Ctx) {
 					}
 					if !allPathsTo(fn, r.Block(), hit) {
 						okAll = false
-						if bad == "" {
+						if bad == "" && count {
 							bad = "the return at " + w.instrPos(r) + " does not send Refresh with lifetime 0: the allocation stays at the server until it expires"
 						}
 					}
@@ -716,4 +721,18 @@ func dontWaitSite(cs ssa.CallInstruction) bool {
 		}
 	})
 	return n > 0 && n == nTrue
+}
+
+// defaultOfOr: v is cmp.Or(configured…, K) — the first non-zero argument — with a constant
+// last argument: K is the default that replaces a zero configuration.
+func defaultOfOr(w *World, v ssa.Value) (int64, bool) {
+	call, ok := stripIface(w.resolveLoad(v)).(*ssa.Call)
+	if !ok || stdCallee(&call.Call) != "cmp.Or" || len(call.Call.Args) != 1 {
+		return 0, false
+	}
+	els := variadicElems(call.Call.Args[0])
+	if len(els) < 2 {
+		return 0, false
+	}
+	return constInt(els[len(els)-1])
 }
